@@ -44,6 +44,7 @@ class Treeifier:
         self.aleaves, self.cleaves = [], []
         self._akey, self._ckey = {}, {}
         self.uses_normal = False
+        self.has_cond = False
         self.max_deriv = 0
         self.nodes = 0
 
@@ -107,6 +108,7 @@ class Treeifier:
 
     # operators --------------------------------------------------------
     def cond(self, e):
+        self.has_cond = True
         ops = {uc.LT: "lt", uc.LE: "le", uc.GT: "gt", uc.GE: "ge", uc.EQ: "eq", uc.NE: "ne"}
         for cls, name in ops.items():
             if isinstance(e, cls):
